@@ -154,6 +154,10 @@ def site_of(name, opt):
 
 def elements(name, j):
     mod, P = planet_mod(name)
+    if int(abs(j) * 3.0) % 2 == 0:
+        # the two element routines share the module's tables: asking for the J2000 elements
+        # first must not change what the mean-equinox routine returns afterwards
+        P.orbital_elements_j2000(Epoch(j))
     L, a, e, i, om, arg = P.orbital_elements_mean_equinox(Epoch(j))
     return L(), a, e, i(), om(), arg()
 
@@ -457,6 +461,23 @@ def body_evaluator(case):
                         "a-priori double-precision rounding bound %.2e rad"
                         % (name, j, dl, float(Lx), rb), site=site, kind="evaluator", coord="L",
                         dev=dl, rounding_bound=rb, t=t)
+    # the same evaluation a fraction of a millisecond later (an ulp-neighbour of the epoch, not a
+    # new random one): the result must again be the direct sum *at that epoch*
+    dt = (1e-9, 5e-9, 2e-8, 1e-8)[int(abs(year) * 977.0) % 4]
+    e2 = Epoch(e.jde() + dt)
+    if e2.jde() != e.jde():
+        lon2, lat2, r2 = vsop_pos(e2, mod.VSOP87_L, mod.VSOP87_B, mod.VSOP87_R)
+        t2 = (e2.jde() - 2451545.0) / 365250.0
+        L2 = ref_series(mod.VSOP87_L, t2)
+        d2 = (F(lon2.rad()) - L2) % (2 * PI)
+        if d2 > PI:
+            d2 -= 2 * PI
+        if abs(float(d2)) > 1e-11 + rb:
+            raise Violation("vsop_pos(%s, JDE %r), evaluated right after JDE %r: longitude differs from the "
+                            "direct summation at that epoch by %.3e rad (the first evaluation was within %.1e)"
+                            % (name, e2.jde(), e.jde(), float(d2), dl), site=site, kind="evaluator_neighbour",
+                            dev=abs(float(d2)))
+        labels.append("neighbour_epoch_evaluated")
     return {"labels": labels, "nontrivial": abs(year - 2000.0) > 1000.0,
             "show": {"dL_rad": dl, "dB_rad": db, "dR_au": dr}}
 
@@ -510,6 +531,23 @@ def body_corrections(case):
                             "%.9f\", expected -20.4898\"/R = %.9f\"" % (j, got * 3600, want * 3600),
                             site=site, kind="aberration_nonut", got=got, want=want)
         labels.append("opt:apparent_nonut")
+        # the J2000-referred Earth series has the same tofk5 option: whatever the series gives
+        # (it has a known defect, C08), the documented FK5 step must separate its two option values
+        mod, P = planet_mod("Earth")
+        lj0, bj0, rj0 = P.geometric_heliocentric_position_j2000(Epoch(j), tofk5=False)
+        lj1, bj1, rj1 = P.geometric_heliocentric_position_j2000(Epoch(j), tofk5=True)
+        lpj = math.radians(lj0() - 1.397 * T - 0.00031 * T * T)
+        tbj = math.tan(math.radians(bj0()))
+        dlj_doc = (-0.09033 + 0.03916 * (math.cos(lpj) + math.sin(lpj)) * tbj) * ASEC
+        dbj_doc = 0.03916 * (math.cos(lpj) - math.sin(lpj)) * ASEC
+        dlj, dbj = circ(lj1(), lj0()), bj1() - bj0()
+        if abs(dlj - dlj_doc) > 1e-9 or abs(dbj - dbj_doc) > 1e-9 or rj1 != rj0:
+            raise Violation("Earth.geometric_heliocentric_position_j2000 at JDE %r: tofk5=True minus tofk5=False is "
+                            "dL = %.9f\", dB = %.9f\" (documented FK5 formulae give %.9f\", %.9f\")"
+                            % (j, dlj * 3600, dbj * 3600, dlj_doc * 3600, dbj_doc * 3600),
+                            site="Earth.geometric_heliocentric_position_j2000", kind="fk5_j2000")
+        n = 5
+        labels.append("opt:j2000_tofk5")
     return {"n": n, "labels": labels, "nontrivial": True,
             "show": {"fk5_dL_arcsec": dl * 3600, "fk5_dB_arcsec": db * 3600,
                      "app_minus_geo_arcsec": circ(la(), l1()) * 3600}}
